@@ -9,7 +9,8 @@ track / untrack / recover with worker steps, daemon effects, successful / failin
 calls and lost pins; any queue capacity and worker count), and they are stated with the very
 functions of `Spec/C05.lean` that the driver evaluates on the real tracker's observations.
 
-* `invariant_holds`            the tracker invariant (Q1–Q6 of the design, 21 conjuncts) holds in every reachable state
+* `invariant_holds`, `invariant2_holds`  the tracker invariant (Q1–Q6 of the design, 21 + 4 conjuncts) holds in every reachable state
+* `idle_is_quiescent`, `activity_quiesces`  no operation is lost; worker/daemon activity terminates
 * `quiescent_match_or_error`   first sentence of the property
 * `recover_heals`              second sentence: a recover round with IPFS healthy, from a quiescent state
 * `recover_uses_recorded`      ... re-issuing the pin recorded in the shared pinset
@@ -23,6 +24,24 @@ namespace CV.C05
 theorem invariant_holds {cfg : Cfg} {s : State} (h : Reachable cfg s) : Inv s := inv_reachable h
 
 theorem invariant_step (cfg : Cfg) (s : State) (e : Ev) (h : Inv s) : Inv (step cfg s e) := inv_step cfg s e h
+
+/-- second part (channel capacity; a queued table entry is in its channel, an in-progress one has its call) -/
+theorem invariant2_holds {cfg : Cfg} {s : State} (h : Reachable cfg s) : Inv2 cfg s := inv2_reachable h
+
+/-- No operation is ever lost: when the channels are empty and nothing is parked at the daemon, no CID reports a
+    queued / in-progress status, i.e. the state is quiescent as the property (and the harness) observes it. -/
+theorem idle_is_quiescent (cfg : Cfg) (n : Nat) (s : State) (hr : Reachable cfg s)
+    (hp : s.pinQ = []) (hu : s.unpinQ = []) (hc : s.calls = []) : quiescent n (observe s) = true :=
+  idle_quiescent n (inv_reachable hr) (inv2_reachable hr) hp hu hc
+
+/-- Activity quiesces: an internal step (worker, daemon) is either not enabled or strictly decreases the outstanding
+    work, and while work is outstanding some internal step is enabled. So once instructions stop, after at most
+    `work s` enabled internal steps the channels are empty and nothing is parked (`work = 0`). -/
+theorem activity_quiesces (cfg : Cfg) (s : State) (hw : 1 ≤ cfg.workers) :
+    (∀ e, internalEv e = true → step cfg s e = s ∨ work (step cfg s e) < work s) ∧
+    (0 < work s → ∃ e, internalEv e = true ∧ work (step cfg s e) < work s) ∧
+    (work s = 0 → s.pinQ = [] ∧ s.unpinQ = [] ∧ s.calls = []) :=
+  ⟨fun e he => internal_step_decreases cfg s e he, busy_can_step cfg s hw, work_zero⟩
 
 /-- Once activity quiesces, for every CID the daemon matches the last instruction or the status is an
     error status — in every reachable state, for every queue size and worker count. -/
